@@ -103,7 +103,7 @@ Example spec_rename_all_example :
 Proof. vm_compute. repeat split; reflexivity. Qed.
 
 Theorem rename_alpha_core (p : prog) (rho : nat -> Z) :
-  core_d p = true -> program_ok p = true -> Z.of_nat (occurrences p) < 65536 ->
+  core_x p = true -> program_ok p = true -> Z.of_nat (occurrences p) < 65536 ->
   exists ps,
     run_program p = Running ps /\
     let st := pst ps in
@@ -117,12 +117,12 @@ Theorem rename_alpha_core (p : prog) (rho : nat -> Z) :
     (forall i, (i < length vs)%nat -> vdecl (vget st (nth i vs O)) = NoDecl -> rho (nth i vs O) = vname (vget st (nth i vs O))) ->
     (* the program with every occurrence renamed after its Var has the same binding structure *)
     let p' := rename_prog (map rho vs) p in
-    core_d p' = true /\ (core p = true -> core p' = true) /\
+    core_x p' = true /\ (core_d p = true -> core_d p' = true) /\ (core p = true -> core p' = true) /\
     spec_resolve p' =
       map (fun vt => match snd vt with TGlobal x => TGlobal x | TBind s a _ => TBind s a (rho (fst vt)) end) (combine vs ts).
 Proof.
   intros Hc Hok Hocc.
-  destruct (resolution_correct_core_d p Hc Hok Hocc) as (ps & Hrun & R).
+  destruct (resolution_correct_x p Hc Hok Hocc) as (ps & Hrun & R).
   exists ps. split; [exact Hrun|]. cbn zeta in *.
   set (st := pst ps) in *. set (vs := map (root_of st) (rev (plog ps))) in *. set (ts := spec_resolve p) in *.
   destruct R as (Rlen & Riff & Rglob & Rbound & _).
@@ -171,8 +171,8 @@ Proof.
   { apply Forall_forall. intros [x|s a x] Hin; [exact I|exact Hin]. }
   specialize (Hren HDt). rewrite app_nil_r, Enames in Hren.
   unfold rename_prog. destruct (rename_with (map rho vs) p) as [p' l'] eqn:Ep. cbn [fst].
-  destruct Hren as (_ & Hres & Hlex & Hvard & _ & _ & _ & _ & _ & Hcored & _ & Hcore).
-  split; [exact (Hcored Hc)|]. split; [exact Hcore|].
+  destruct Hren as (_ & Hres & Hlex & Hvard & _ & _ & _ & _ & _ & Hcored & _ & Hcore & Hcorex & _).
+  split; [exact (Hcorex Hc)|]. split; [exact Hcored|]. split; [exact Hcore|].
   unfold spec_resolve at 1. rewrite Hlex, Hvard, <- map_app.
   change [(O, false, map (f O false) (vardecls p ++ lexdecls p))] with (ren_env f [(O, false, vardecls p ++ lexdecls p)]).
   rewrite Hres. cbn [fst].
@@ -199,6 +199,18 @@ Example rename_example_d :
       let rho := fun v => if vdecl (vget st v) =? NoDecl then vname (vget st v) else 100 + Z.of_nat v in
       canon target_eqb (spec_resolve (rename_prog (map rho vs) p)) = canon target_eqb (spec_resolve p)
       /\ program_ok (rename_prog (map rho vs) p) = true /\ core_d (rename_prog (map rho vs) p) = true
+  | None => False
+  end.
+Proof. vm_compute. repeat split; reflexivity. Qed.
+
+Example rename_example_x :
+  let p := example_prog_x in
+  match occurrence_vars p with
+  | Some vs =>
+      let st := match run_program p with Running ps => pst ps | _ => empty_state end in
+      let rho := fun v => if vdecl (vget st v) =? NoDecl then vname (vget st v) else 100 + Z.of_nat v in
+      canon target_eqb (spec_resolve (rename_prog (map rho vs) p)) = canon target_eqb (spec_resolve p)
+      /\ program_ok (rename_prog (map rho vs) p) = true /\ core_x (rename_prog (map rho vs) p) = true
   | None => False
   end.
 Proof. vm_compute. repeat split; reflexivity. Qed.
